@@ -805,6 +805,64 @@ def special_programs():
     add('long-line', 'pragma solidity ^0.8.10;' + ' ' * 70000 + 'contract A { uint x; function f(uint a) public { x = a + 1; ++x; } }\n\ncontract B { function g(uint a) public returns (uint) { return a * 2; } }\n')
     add('free-functions', PRELUDE + 'function min(uint a, uint b) pure returns (uint) { return a < b ? a : b; }\n'
         'function twice(uint a) pure returns (uint) { return min(a, a) * 2; }\ncontract C { function f() public {} }\nfunction max(uint a, uint b) pure returns (uint) { return a >= b ? a : b; }')
+    # --- wave 5
+    add('contractless-findings', PRELUDE + 'struct Pk { uint128 a; uint256 b; uint128 c; }\nuint256 constant MAX_SUPPLY = 10000;\n'
+        'function freeSum(uint[] memory xs, uint k) pure returns (uint s) {\n  for (uint i = 0; i < xs.length; i++) {\n    s = s + xs[i] * 2;\n  }\n'
+        '  require(k >= 1 && k <= 5, "k");\n  if (k == 3) { s = s / 2 * k; }\n}\nenum Kind { A, B }\n')
+    add('contractless-findings-nopragma', 'struct Pk { uint128 a; uint256 b; uint128 c; }\nfunction bump(uint i) pure returns (uint) { i++; return i * 4; }\n')
+    for n in (32, 33, 34, 35, 37, 38, 66, 131):
+        items = []
+        for k in range(n - 1):
+            kind = k % 4
+            if kind == 0:
+                items.append('contract K%d { uint v; function f%d(uint a) public { v = a + %d; v++; } }' % (k, k, k))
+            elif kind == 1:
+                items.append('function free%d(uint a) pure returns (uint) { return a * %d + (a >= 2 ? 1 : 0); }' % (k, 2 ** (k % 5 + 1)))
+            elif kind == 2:
+                items.append('struct S%d { uint128 a; uint256 b; uint128 c; }' % k)
+            else:
+                items.append('library L%d { function g(address t) internal { require(t != address(0), "z"); t.balance; } }' % k)
+        add('many-items-%d' % n, PRELUDE + '\n'.join(items) + '\n')
+    add('several-modifiers', PRELUDE + 'contract A {\n  modifier onlyOwner() { _; }\n  modifier nonReentrant() { _; }\n  modifier lock() { _; }\n  modifier whenOnlyActive(uint q) { _; }\n'
+        '  function k1() public nonReentrant onlyOwner { selfdestruct(payable(msg.sender)); }\n'
+        '  function k2() external lock nonReentrant onlyOwner { selfdestruct(payable(msg.sender)); }\n'
+        '  function k3() public onlyOwner nonReentrant { selfdestruct(payable(msg.sender)); }\n'
+        '  function k4() public nonReentrant lock { selfdestruct(payable(msg.sender)); }\n'
+        '  function k5() external lock whenOnlyActive(1) nonReentrant { suicide(payable(msg.sender)); }\n'
+        '  function k6() public virtual nonReentrant override onlyOwner { selfdestruct(payable(msg.sender)); }\n'
+        '  function k7() nonReentrant public { selfdestruct(payable(msg.sender)); }\n}')
+    add('spaced-members', PRELUDE + 'contract A {\n  function f(address to, uint amount) public {\n    token.\n      transfer(to, amount);\n    token . approve(to, amount);\n'
+        '    token./* erc20 */transferFrom(to, to, amount);\n    require( to != address( 0 ) );\n    require(to != address(\n      0\n    ));\n    uint b = address( this ) . balance;\n'
+        '    bytes32 h = keccak256 (abi.encode(amount));\n    amount ++ ;\n    selfdestruct (payable(to));\n  }\n}')
+    add('spaced-only', 'pragma solidity ^ 0.8.10 ;\ncontract A {\n  function f(address to, uint amount) public {\n    token\n      .\n      transfer\n      (to, amount);\n'
+        '    if (to == address\n(\n0\n)) { amount = amount / 2\n * 3; }\n  }\n}')
+    add('write-in-header', 'pragma solidity 0.8.10;\ncontract A {\n  uint cap; uint floorPrice; uint rate; uint body;\n  modifier record(uint q) { _; }\n'
+        '  constructor(uint c) { cap = c; floorPrice = c; rate = c; body = c; }\n  function raise(uint n) external record(cap = n) { }\n'
+        '  function lower(uint step) external record(floorPrice -= step) { }\n  function inBody(uint n) external { body = n; }\n}')
+    for v in ('0.8.4', '0.8.3', '^0.8.10', '0.7.6'):
+        add('require-arity-' + v, 'pragma solidity %s;\ncontract A {\n  function f(bool c, uint x) public {\n    require("message only");\n    require(c, x, "third is the message");\n'
+            '    require(c, "ok");\n    require("first is a string but not last", c);\n    require(c, x, "a message of more than thirty-two bytes in third place");\n    require();\n    revert("plain");\n    revert(c, "two");\n  }\n}' % v)
+    add('file-level-safemath', 'pragma solidity 0.8.10;\nusing SafeMath for uint256;\ncontract A { function f(uint a) public returns (uint) { return a.add(1).mul(2); } }\n')
+    add('file-level-safemath-old', 'pragma solidity 0.7.6;\ncontract A { function f(uint a) public returns (uint) { return a.sub(1).div(2); } }\nusing SafeMath for uint256 global;\n')
+    add('address-payable-state', PRELUDE + 'contract A {\n  address payable treasury;\n  address payable never = payable(address(0));\n  address payable beneficiary;\n  address plain;\n'
+        '  constructor(address payable t) { treasury = t; plain = t; }\n  function set(address payable b) public { beneficiary = b; }\n}')
+    add('function-typed-state', PRELUDE + 'contract A {\n  function(uint) external returns (uint) cb;\n  function() internal hook;\n  uint after_;\n  constructor() { after_ = 1; }\n  function set() public { hook = set; }\n}')
+    add('members-between-vars', PRELUDE + 'contract A {\n  event E();\n  uint128 a;\n  uint256 b;\n  uint128 c;\n}\ncontract B {\n  uint128 a;\n  uint256 b;\n  bool c;\n  function f() public {}\n  uint128 d;\n}\n'
+        'contract D {\n  uint128 a;\n  struct In { uint8 x; }\n  error Er();\n  uint256 b;\n  modifier m() { _; }\n  uint128 c;\n}')
+    add('struct-sub-word-separators', PRELUDE + 'struct T1 { uint128 a; address b; uint128 c; }\ncontract A { struct T2 { uint128 a; uint200 b; uint128 c; } struct T3 { uint8 a; bytes31 b; uint8 c; int248 d; } '
+        'struct T4 { uint8 a; uint248 b; uint128 c; uint128 d; } }\ncontract B { uint8 a; uint248 b; uint128 c; uint128 d; }')
+    add('no-visibility-underscore', PRELUDE + 'contract A {\n  uint256 _pending;\n  mapping(address => uint) _balances;\n  address immutable _deployer;\n  uint plain;\n  uint constant _K = 1;\n  uint public _pub;\n  uint private priv;\n  constructor() { _deployer = msg.sender; }\n}')
+    add('column-zero-members', 'pragma solidity ^0.8.10;\ncontract A {\nuint256 public constant CAP = 1000;\nfunction mint() external {\ntotal++;\n}\nuint total;\n}\n')
+    add('lone-cr', 'pragma solidity ^0.8.10;\n// a comment ended by a bare carriage return\rcontract A {\n  uint x;\r  function f(uint a) public {\n    x = a + 1;\r    ++x;\n  }\n}\n')
+    add('last-line-unterminated', 'pragma solidity ^0.8.10;\ncontract A { uint x; function f(uint a) public { x = a + 1; } }\ncontract B { function g(uint a) external returns (uint) { return a * 2; } }')
+    add('single-line', 'pragma solidity ^0.8.10; contract A { uint x; function f(uint a) public { x = a + 1; ++x; } }')
+    add('shift-assign-operands', PRELUDE + 'contract A { uint[] arr; function f(uint i, uint j) public { arr[i++] >>= g(j--); arr[--i] <<= g(++j); arr[i++] %= g(j--); arr[i++] |= g(j--); arr[i++] ^= g(j--); arr[i++] &= g(j--); } function g(uint a) internal returns (uint) { return a; } }')
+    add('free-fn-between-contracts', PRELUDE + 'contract Vault {\n  function helper() internal { }\n  function _pub() public { }\n}\nfunction clamp(uint a) pure returns (uint) { return a; }\n'
+        'contract Registry {\n  function lookup() private { }\n  function _open() external { }\n}\n')
+    add('no-pragma-custom-error', 'pragma abicoder v2;\nerror Unauthorized();\nlibrary Lb { function f(bool c) internal { require(c, "a message longer than thirty-two bytes for sure"); } }\n'
+        'contract A { function g(bool c) public { require(c, "msg"); } }\ninterface I { error Bad(); }\n')
+    add('wrapped-findings', PRELUDE + 'contract A {\n  function f(uint a, uint b, uint c, uint d) public returns (uint) {\n    uint r = (a *\n      b) + (c * d);\n    require(a >=\n      b && c <= d, "x");\n'
+        '    r = a /\n 2 * b + c / 4 * d;\n    return r;\n  }\n}')
     return P
 
 
@@ -830,6 +888,31 @@ def c08_scenarios(rng, n):
         'library': ('contract Decl { uint y; uint cand; uint plain; constructor(uint q) { cand = q; } }', 'library Third { function w() internal { %s } }'),
         'free': ('contract Decl { uint y; uint cand; uint plain; constructor(uint q) { cand = q; } }', 'function freeWriter() { %s }'),
     }
+    # places that hold an EXPRESSION outside any function body (the form is inserted without `;`)
+    D0 = 'contract Decl { uint y; uint cand; uint plain; constructor(uint q) { cand = q; } modifier mq(uint q) { _; } '
+    expr_tpl = {
+        'x_fn_modifier_arg': (D0 + 'function w(uint n) external mq(%s) { y = n; } }', ''),
+        'x_fn_modifier_arg_nobody': (D0 + 'function w(uint n) external virtual mq(%s); }', ''),
+        'x_other_fn_modifier_arg': (D0 + '}', 'contract Other is Decl(1) { function w() public mq(%s) { } }'),
+        'x_ctor_base_arg': (D0 + '}', 'contract Other is Decl { constructor() Decl(%s) { } }'),
+        'x_inherit_arg': (D0 + '}', 'contract Other is Decl(%s) { }'),
+        'x_state_initializer': (D0 + 'uint z = (%s); }', ''),
+        'x_other_state_initializer': (D0 + '}', 'contract Other is Decl(1) { uint z = (%s); }'),
+        'x_for_header': (D0 + 'function w() public { for (uint i = 0; i < (%s); i++) { } } }', ''),
+        'x_return': (D0 + 'function w() public returns (uint) { return (%s); } }', ''),
+        'x_emit_arg': (D0 + 'event Ev(uint p); function w() public { emit Ev(%s); } }', ''),
+        'x_index': (D0 + 'uint[] arr; function w() public returns (uint) { return arr[%s]; } }', ''),
+        'x_ternary': (D0 + 'function w(bool c) public returns (uint) { return c ? (%s) : 0; } }', ''),
+        'x_call_value': (D0 + 'function w(address payable to) public { to.call{value: (%s)}(""); } }', ''),
+        'x_array_size': (D0 + 'function w() public { uint[] memory m = new uint[](%s); } }', ''),
+    }
+    for place in sorted(expr_tpl):
+        for form in WRITE_FORMS:
+            for var in ('cand', 'plain'):
+                a, b = expr_tpl[place]
+                e = form.replace('@', var)
+                src = PRELUDE + (a % e if '%s' in a else a) + '\n' + (b % e if '%s' in b else b) + '\n'
+                out.append({'gen': 'c08sys:%s:%s:%s' % (place, form, var), 'src': src})
     k0 = 0
     for place in sorted(place_tpl):
         for form in WRITE_FORMS:
